@@ -351,6 +351,76 @@ def M2(ctx):
         ctx.bad("M2", fk, "State::rmw must return Ok(prev) with prev = stores[index].value", fn.loc(), detail="prev")
 
 
+def M4(ctx):
+    """FirstSeen is write-once per thread: touch() records a version only if the thread has none yet."""
+    prog = ctx.prog
+    fk = "rt::atomic::FirstSeen::touch"
+    fn = need_fn(ctx, "M4", fk)
+    if fn is None:
+        return
+    body = fn.body
+    writes = []
+    for b, blk in enumerate(body.blocks):
+        if blk["cleanup"]:
+            continue
+        for s in blk["stmts"]:
+            if s["k"] == "=" and s["lhs"]["l"] == 1 and any(isinstance(p, dict) and p.get("a") == "rt::atomic::FirstSeen" for p in s["lhs"]["p"]):
+                writes.append(b)
+    ok = bool(writes)
+    for b in writes:
+        g = [(e, pol) for (e, pol, v, sb) in guard_atoms(body, b)]
+        if not any(e[0] == "binop" and e[1] == "Eq" and mentions_field(e[2], "rt::atomic::FirstSeen", "0") and pol is True and
+                   ("65535" in canon(e[3]) or "MAX" in canon(e[3]) or "max_value" in canon(e[3])) for (e, pol) in g):
+            ok = False
+    if ok:
+        ctx.ok("M4", fk, "records the version only while the slot still holds the `unseen` marker (first observation wins)", [site_str(prog, fk, writes[0])])
+    else:
+        ctx.bad("M4", fk, "FirstSeen::touch overwrites an already recorded first-seen version: a re-read moves the observation forward and "
+                "coherence edges of threads that synchronised with the earlier state are lost", fn.loc())
+
+
+def _is_mo_lt(prog, e, depth=0):
+    """e is `mo_a < mo_b` on two modification_order clocks: a direct PartialOrd::lt call, or a local helper that returns exactly that."""
+    e = strip(e)
+    if e[0] != "call":
+        return False
+    if e[1].endswith("PartialOrd::lt"):
+        return True
+    if depth < 2 and e[1] in prog.fns:
+        r = strip(prog.fns[e[1]].body.expr_of_local(0))
+        return r[0] == "call" and r[1].endswith("PartialOrd::lt") and all(strip(a)[0] == "param" for a in r[2])
+    return False
+
+
+def M5(ctx):
+    """Candidate selection orders stores only by the partial order of their modification_order clocks: every pruning decision in
+    match_load_to_stores / match_rmw_to_stores is under `mo_i < mo_j` (VersionVec's PartialOrd), never under another ordering."""
+    prog = ctx.prog
+    for fk in (ST + "match_load_to_stores", ST + "match_rmw_to_stores"):
+        fn = need_fn(ctx, "M5", fk)
+        if fn is None:
+            continue
+        body = fn.body
+        inst = prog.ident(fk)
+        # the candidate is recorded by `dst[n] = i`; a pruning path is one that skips it for an (i, j) pair: find switches whose
+        # operand compares modification orders
+        cmps = []
+        for b in range(body.n):
+            t = body.term(b)
+            if t["k"] == "switch":
+                e = body.expr_of_operand(t["op"])
+                if e[0] == "call" and "modification_order" in canon(e) and not e[1].endswith("PartialEq::ne") and not e[1].endswith("PartialEq::eq"):
+                    cmps.append((b, e))
+        good = [b for (b, e) in cmps if _is_mo_lt(prog, e)]
+        other = [(b, e) for (b, e) in cmps if not _is_mo_lt(prog, e)]
+        if good and not other:
+            ctx.ok("M5", fk, "stores are ordered by `modification_order` under VersionVec's partial order only", [site_str(prog, fk, good[0])])
+        else:
+            ctx.bad("M5", fk, "candidate stores are ordered by something other than the partial order of their modification_order clocks "
+                    "(%s): racing stores get a fixed order and allowed outcomes disappear" % [canon(e)[:60] for b, e in other][:2],
+                    site_str(prog, fk, (other or cmps or [(0, None)])[0][0]))
+
+
 M3_ALLOWED = {
     ("rt::atomic::Store", "modification_order"): {ST + "store", ST + "apply_load_coherence", "<rt::atomic::Store as std::default::Default>::default"},
     ("rt::atomic::Store", "sync"): {ST + "store", ST + "load", ST + "rmw", "rt::atomic::fence_acq", "<rt::atomic::Store as std::default::Default>::default"},
